@@ -342,7 +342,12 @@ func analyse(p *pkgInfo, f *ast.File, name string) {
 			rep.Modelled["channel send"]++
 			chanOps++
 		case *ast.SelectStmt:
-			rep.Unmodelled = append(rep.Unmodelled, Note{"select", pos(x.Pos())})
+			if selectRewritable(x) {
+				rep.Modelled["select"]++
+				chanOps++
+			} else {
+				rep.Unmodelled = append(rep.Unmodelled, Note{"select without cases or with more than 16 cases", pos(x.Pos())})
+			}
 		case *ast.UnaryExpr:
 			if x.Op == token.ARROW {
 				rep.Modelled["channel receive"]++
@@ -391,11 +396,18 @@ func instrument(p *pkgInfo, f *ast.File, src []byte, simImport string) []byte {
 	}
 	syncAlias := ""
 	timeAlias := ""
+	runtimeAlias := ""
 	for _, is := range f.Imports {
 		if strings.Trim(is.Path.Value, "\"") == "sync" {
 			syncAlias = "sync"
 			if is.Name != nil {
 				syncAlias = is.Name.Name
+			}
+		}
+		if strings.Trim(is.Path.Value, "\"") == "runtime" {
+			runtimeAlias = "runtime"
+			if is.Name != nil {
+				runtimeAlias = is.Name.Name
 			}
 		}
 		if strings.Trim(is.Path.Value, "\"") == "time" {
@@ -408,6 +420,7 @@ func instrument(p *pkgInfo, f *ast.File, src []byte, simImport string) []byte {
 	usedSim := false
 	rewroteSyncFunc := false
 	rewroteTime := false
+	rewroteRuntime := false
 	commaOK := map[*ast.UnaryExpr]bool{}
 
 	// is this statement "shared"? (shallow: nested blocks and function literals excluded)
@@ -522,6 +535,49 @@ func instrument(p *pkgInfo, f *ast.File, src []byte, simImport string) []byte {
 				}
 				return false
 			case *ast.SelectStmt:
+				if selectRewritable(x) {
+					txt := func(e ast.Node) string { return string(src[off(e.Pos()):off(e.End())]) }
+					hasDefault := "false"
+					var cases []string
+					idx := 0
+					for _, c := range x.Body.List {
+						cl := c.(*ast.CommClause)
+						hdr := ""
+						if cl.Comm == nil {
+							hasDefault = "true"
+							hdr = "default: _, _ = zzv, zzok; "
+						} else {
+							assign := ""
+							switch cm := cl.Comm.(type) {
+							case *ast.SendStmt:
+								cases = append(cases, "zzsim.SendCase("+txt(cm.Chan)+", "+txt(cm.Value)+")")
+							case *ast.ExprStmt:
+								u := unparen(cm.X).(*ast.UnaryExpr)
+								cases = append(cases, "zzsim.RecvCase("+txt(u.X)+")")
+							case *ast.AssignStmt:
+								u := unparen(cm.Rhs[0]).(*ast.UnaryExpr)
+								ch := txt(u.X)
+								cases = append(cases, "zzsim.RecvCase("+ch+")")
+								tok := cm.Tok.String()
+								if len(cm.Lhs) == 2 {
+									assign = txt(cm.Lhs[0]) + ", " + txt(cm.Lhs[1]) + " " + tok + " zzsim.As(" + ch + ", zzv), zzok; "
+								} else {
+									assign = txt(cm.Lhs[0]) + " " + tok + " zzsim.As(" + ch + ", zzv); "
+								}
+							}
+							hdr = fmt.Sprintf("case %d: _, _ = zzv, zzok; %s", idx, assign)
+							idx++
+						}
+						add(off(cl.Case), off(cl.Colon)+1-off(cl.Case), hdr)
+					}
+					add(off(x.Select), off(x.Body.Lbrace)+1-off(x.Select),
+						"switch zzi, zzv, zzok := zzsim.Select("+hasDefault+strings.Join(append([]string{""}, cases...), ", ")+"); zzi {")
+					if hasDefault == "false" {
+						// keeps a select whose cases all return a terminating statement
+						add(off(x.Body.Rbrace), 0, "default: panic(\"zzsim: select returned no case\") ")
+					}
+					rep.Rewrites["select"]++
+				}
 				for _, cl := range x.Body.List {
 					walk(cl, fn, api, first)
 				}
@@ -539,7 +595,7 @@ func instrument(p *pkgInfo, f *ast.File, src []byte, simImport string) []byte {
 				doList(x.Body, fn, api, first)
 				return false
 			case *ast.CallExpr:
-				rewriteCall(p, x, off, src, add, &usedSim, &rewroteSyncFunc, &rewroteTime)
+				rewriteCall(p, x, off, src, add, &usedSim, &rewroteSyncFunc, &rewroteTime, &rewroteRuntime)
 			case *ast.GoStmt:
 				if fl, ok := x.Call.Fun.(*ast.FuncLit); ok {
 					add(off(x.Pos()), 0, "{ zzT := zzsim.TaskNew(); ")
@@ -660,6 +716,9 @@ func instrument(p *pkgInfo, f *ast.File, src []byte, simImport string) []byte {
 	if rewroteSyncFunc && syncAlias != "" && syncAlias != "_" && syncAlias != "." {
 		b.WriteString("\nvar _ " + syncAlias + ".Once\n")
 	}
+	if rewroteRuntime && runtimeAlias != "" && runtimeAlias != "_" && runtimeAlias != "." {
+		b.WriteString("\nvar _ = " + runtimeAlias + ".Version\n")
+	}
 	if rewroteTime && timeAlias != "" && timeAlias != "_" && timeAlias != "." {
 		b.WriteString("\nvar _ " + timeAlias + ".Duration\n")
 	}
@@ -668,7 +727,7 @@ func instrument(p *pkgInfo, f *ast.File, src []byte, simImport string) []byte {
 }
 
 func rewriteCall(p *pkgInfo, c *ast.CallExpr, off func(token.Pos) int, src []byte,
-	add func(o, del int, text string), usedSim, rewroteSyncFunc, rewroteTime *bool) {
+	add func(o, del int, text string), usedSim, rewroteSyncFunc, rewroteTime, rewroteRuntime *bool) {
 	fun := c.Fun
 	if ix, ok := fun.(*ast.IndexExpr); ok {
 		fun = ix.X
@@ -689,6 +748,17 @@ func rewriteCall(p *pkgInfo, c *ast.CallExpr, off func(token.Pos) int, src []byt
 			rep.Rewrites[obj.FullName()]++
 			*usedSim = true
 			*rewroteTime = true
+		}
+		return
+	}
+	if ok && obj.Pkg() != nil && obj.Pkg().Path() == "runtime" {
+		switch obj.FullName() {
+		case "runtime.GOMAXPROCS", "runtime.NumCPU":
+			// a configuration knob the simulator varies per run
+			add(off(sel.Pos()), off(sel.End())-off(sel.Pos()), "zzsim."+sel.Sel.Name)
+			rep.Rewrites[obj.FullName()]++
+			*usedSim = true
+			*rewroteRuntime = true
 		}
 		return
 	}
@@ -768,4 +838,37 @@ func unparen(e ast.Expr) ast.Expr {
 		}
 		e = p.X
 	}
+}
+
+// selectRewritable: 1..16 communication clauses, each a plain send, receive or
+// receive-assignment.
+func selectRewritable(x *ast.SelectStmt) bool {
+	n := 0
+	for _, c := range x.Body.List {
+		cl, ok := c.(*ast.CommClause)
+		if !ok {
+			return false
+		}
+		if cl.Comm == nil {
+			continue
+		}
+		n++
+		switch cm := cl.Comm.(type) {
+		case *ast.SendStmt:
+		case *ast.ExprStmt:
+			if u, ok := unparen(cm.X).(*ast.UnaryExpr); !ok || u.Op != token.ARROW {
+				return false
+			}
+		case *ast.AssignStmt:
+			if len(cm.Rhs) != 1 || len(cm.Lhs) > 2 {
+				return false
+			}
+			if u, ok := unparen(cm.Rhs[0]).(*ast.UnaryExpr); !ok || u.Op != token.ARROW {
+				return false
+			}
+		default:
+			return false
+		}
+	}
+	return n >= 1 && n <= 16
 }
